@@ -86,14 +86,42 @@ def atoms(fn, cond, pol, inline=True, cond_expand=True):
             return
         if k == 'ImplicitCastExpr' and n.get('ck') in ('PointerToBoolean', 'IntegralToBoolean', 'IntegralCast'):
             return rec(n['c'][0], p)
+        if k == 'BinaryOperator' and n['op'] in ('==', '!=') and depth[0] < 3:
+            # `x == NULL` / `x != 0` on a pointer is the truthiness of x
+            for a_, b_ in ((n['c'][0], n['c'][1]), (n['c'][1], n['c'][0])):
+                if fn.is_null(b_) and '*' in (fn.strip_all_casts(a_).get('t') or '') and not fn.is_null(a_):
+                    return rec(a_, p == (n['op'] == '!='))
         if k == 'CXXMemberCallExpr' and (n.get('fq') or '') == 'graphite2::Error::test':
             return rec(n['args'][0], p)
         if k == 'CXXMemberCallExpr' and (n.get('fq') or '').endswith('::operator bool') and n.get('obj') is not None:
             out.append((n, p))
             return
-        if k == 'DeclRefExpr' and n.get('vid') in fn.const_init and depth[0] < 3:
+        rdef = None
+        if k == 'DeclRefExpr' and n.get('vid') is not None and n.get('vid') not in fn.const_init and depth[0] < 3 and n.get('i') is not None \
+                and (n.get('t') or '').replace('const ', '') in ('bool', '_Bool'):
+            rdef = fn.reaching_def(n['vid'], n['i'])          # `bool adv = a || b; if (!adv) ...` with adv re-assigned later
+            if rdef is None and p:
+                # `bool ok = A; if (ok) ok = B; if (ok) ...`: two definitions reach, the second one guarded by the first: ok is A && B
+                ds = fn.reaching_def(n['vid'], n['i'], all_defs=True)
+                if ds and len(ds) == 2:
+                    for d0, d1 in ((ds[0], ds[1]), (ds[1], ds[0])):
+                        g = [(gc, gp) for gc, gp in edge_guards(fn, fn.block_of[d1])]
+                        guarded = False
+                        for gc, gp in g:
+                            y = fn.strip(gc)
+                            while y['k'] == 'ImplicitCastExpr' and y.get('c'):
+                                y = fn.strip(y['c'][0])
+                            if gp and y['k'] == 'DeclRefExpr' and y.get('vid') == n['vid'] and fn.reaching_def(n['vid'], y['i'], all_defs=True) == [d0]:
+                                guarded = True
+                        if guarded and depth[0] < 3:
+                            depth[0] += 1
+                            rec(fn.def_rhs(n['vid'], d0), True)
+                            rec(fn.def_rhs(n['vid'], d1), True)
+                            depth[0] -= 1
+                            return
+        if k == 'DeclRefExpr' and (n.get('vid') in fn.const_init or rdef is not None) and depth[0] < 3:
             # `const bool ok = a && b; if (!ok) fail;` -- the test is the initialiser's
-            m = fn.strip(fn.const_init[n['vid']])
+            m = fn.strip(fn.const_init[n['vid']] if rdef is None else rdef)
             while m['k'] in ('ImplicitCastExpr', 'ParenExpr') and m.get('c'):
                 m = fn.strip(m['c'][0])
             if (m['k'] == 'BinaryOperator' and m['op'] in ('&&', '||', '<', '>', '<=', '>=', '==', '!=')) or (m['k'] == 'UnaryOperator' and m['op'] == '!'):
@@ -104,6 +132,15 @@ def atoms(fn, cond, pol, inline=True, cond_expand=True):
         out.append((n, p))
         if k == 'CallExpr' and inline:
             out.extend(_inline_predicate(fn, n, p))
+        # `T *r = NULL; if (c) r = f(); if (!r) fail;` -- r != 0 means the one assignment ran: its guards held and f() != 0
+        if k == 'DeclRefExpr' and p and cond_expand and depth[0] < 3 and n.get('vid') is not None:
+            cd = _conditional_def(fn, n['vid'])
+            if cd is not None:
+                depth[0] += 1
+                for gc, gp in edge_guards(fn, fn.block_of[cd['i']]):
+                    rec(gc, gp)
+                rec(cd['c'][1], True)
+                depth[0] -= 1
         # `T * const r = c ? f() : NULL; if (!r) fail;` -- r != 0 means c held and f() != 0 (same for a conditional used directly)
         m = fn.deref(n) if p and depth[0] < 3 and cond_expand else None
         if m is not None and m['k'] == 'ConditionalOperator' and len(m.get('c') or []) == 3:
@@ -121,6 +158,37 @@ def atoms(fn, cond, pol, inline=True, cond_expand=True):
 
     rec(cond, pol)
     return out
+
+
+def _conditional_def(fn, vid):
+    """the single assignment `v = X` of a local that is initialised to null/0/false and never otherwise written or address-taken"""
+    cache = fn.__dict__.setdefault('_cdef', {})
+    if vid in cache:
+        return cache[vid]
+    cache[vid] = None
+    decl = None
+    for _, e in fn.elements():
+        if e['k'] == 'DeclStmt':
+            for d in e.get('decls', []):
+                if d.get('vid') == vid:
+                    decl = d
+    if decl is None or decl.get('init') is None or not fn.is_null(decl['init']):
+        return None
+    par = fn.parents()
+    assigns = []
+    for _, e in fn.elements():
+        if e['k'] == 'DeclRefExpr' and e.get('vid') == vid:
+            for pi in par.get(e['i'], []):
+                p_ = fn.nodes[pi]
+                if p_['k'] == 'ImplicitCastExpr' and p_.get('ck') == 'LValueToRValue':
+                    continue
+                if p_['k'] == 'BinaryOperator' and p_['op'] == '=' and p_['c'][0] == e['i']:
+                    assigns.append(p_)
+                    continue
+                return None
+    if len(assigns) == 1:
+        cache[vid] = assigns[0]
+    return cache[vid]
 
 
 def _inline_predicate(fn, call, pol):
@@ -173,13 +241,13 @@ def _cval(fn, x):
     return None
 
 
-def norm_walk(fn, atom, pol):
+def norm_walk(fn, atom, pol, resolve=True):
     """the fact in the loop-position spelling (cfg.Fn.render_walk)"""
     if isinstance(atom, dict) and atom.get('k') == 'Inlined':
-        return norm(fn, atom, pol, resolve=True)
+        return norm(fn, atom, pol, resolve=resolve)
     old, fn._walk = getattr(fn, '_walk', False), True
     try:
-        return norm(fn, atom, pol, resolve=True)
+        return norm(fn, atom, pol, resolve=resolve)
     finally:
         fn._walk = old
 
@@ -198,7 +266,14 @@ def norm(fn, atom, pol, resolve=False):
     n = fn.strip(atom)
     if n['k'] == 'BinaryOperator' and n['op'] in FLIP:
         op = n['op'] if pol else NEG[n['op']]
-        a, b = fn.render(fn.strip_all_casts(n['c'][0]), resolve=resolve), fn.render(fn.strip_all_casts(n['c'][1]), resolve=resolve)
+
+        def operand(x):
+            # `--x >= 0` is a fact about x (its value from here on); `x-- == 0` is about the old value and stays as written
+            y = fn.strip_all_casts(x)
+            if y['k'] == 'UnaryOperator' and y['op'] in ('pre--', 'pre++') and y.get('c'):
+                y = fn.strip_all_casts(y['c'][0])
+            return y
+        a, b = fn.render(operand(n['c'][0]), resolve=resolve), fn.render(operand(n['c'][1]), resolve=resolve)
         av, bv = _cval(fn, n['c'][0]), _cval(fn, n['c'][1])
         if av is not None:
             a = str(av)
